@@ -5,6 +5,7 @@ import HapModel.Drv.C13
 import HapModel.Drv.C14
 import HapModel.Drv.C17
 import HapModel.Drv.C18
+import HapModel.Drv.C20
 namespace Drv
 open Lean
 
@@ -22,6 +23,7 @@ def dispatch1 (op : String) (j : Json) : R Json :=
   | "bpParse" => hBpParse j
   | "bpRender" => hBpRender j
   | "clump" => hClump j
+  | "validate" => hValidate j
   | _ => throw s!"unknown op {op}"
 
 /-- {"op":"batch","reqs":[…]} → {"resps":[…]} -/
